@@ -11,7 +11,7 @@ Three TLA+ oracles, all bound by direction A (TLC-generated behaviours replayed 
 import sys
 
 import vlib
-from checks import blocksfam, inlinefam
+from checks import blocksfam, fullfam, inlinefam
 from checks.common import confirm_with, replay_with
 
 
@@ -53,7 +53,7 @@ def run_emphasis(ctx):
     r = ctx.tlc("Emphasis", c11.cfg(c11.A3, 10 if ctx.tier == "quick" else 12), name="Emphasis_a3", timeout=3000)
     rc, res, _ = ctx.harness(["emph", r["out"]], timeout=3000)
     ctx.absorb(res)
-    mine = [c for c in ctx.candidates if c["record"].get("kind") not in ("blocks", "inline") and not str(c["record"].get("kind", "")).startswith("doc-")]
+    mine = [c for c in ctx.candidates if c["record"].get("kind") not in ("blocks", "inline", "full") and not str(c["record"].get("kind", "")).startswith("doc-")]
     others = [c for c in ctx.candidates if c not in mine]
     ctx.candidates = others + ctx.keep_confirmed(mine, lambda c: c11.confirm(ctx, c))
 
@@ -63,13 +63,15 @@ def run(ctx):
     run_doc(ctx, "c06")
     blocksfam.run_oracle(ctx)
     inlinefam.run_oracle(ctx)
+    fullfam.validate_model(ctx)
+    fullfam.run_oracle(ctx)
     run_emphasis(ctx)
     ctx.exhaustive = True
     ctx.rule = ("Doc.tla: every abstract document up to the node/depth bound over three leaf sets (structure, 20 inline snippets incl. multi-line links / code spans / "
                 "tags in every container, code and HTML blocks) under the default choice vector, every single-choice variation (24) and choice pairs (thorough); "
                 "Blocks.tla: every document of <= 3/4 line shapes over 50 shapes, <= 3/4 over 22 tab shapes, <= 4/6 over 12 core shapes, <= 3/4 over 34 reference-definition shapes, "
                 "<= 3/4 over 41 HTML-block shapes, and the core / definition / HTML sets again with CR, CRLF and mixed line endings; "
-                "Inline.tla: every string <= 4/6 over seven alphabets; non-trivial = document with >= 3 line endings / skeleton with >= 4 nodes / string with >= 1 inline node; "
+                "Inline.tla: every string <= 4/6 over seven alphabets; Full.tla (Blocks o Inline o HTML mapping): every document of <= 2/3 lines over six shape sets that cross container prefixes (quote with and without its space, list item, indentation, tabs) with pieces of multi-line inline constructs, LF / CR / CRLF - skeleton, inline structure in source offsets and HTML per root block; non-trivial = document with >= 3 line endings / skeleton with >= 4 nodes / string with >= 1 inline node; "
                 "distinct by document bytes")
     ctx.assumptions += ["Doc.tla's libraries only contain spellings whose meaning is fixed by the spec text; compositions whose meaning depends on more than the rule exercised are excluded by CanAddLeaf / CanClose / ChoiceOK",
                         "the denotation is written in the renderer's dialect (void tags without slash, &quot; / &#39;, references copied verbatim) and compared exactly per root block",
@@ -80,10 +82,10 @@ def run(ctx):
 def replay(ctx, path):
     import json
     kind = json.load(open(path))["record"].get("kind", "")
-    if kind not in ("blocks", "inline") and not kind.startswith("doc-"):
+    if kind not in ("blocks", "inline", "full") and not kind.startswith("doc-"):
         from checks import c11
         return c11.replay(ctx, path)
-    replay_with(ctx, {"blocks": "blocks", "inline": "inline"}.get(kind, "doc"), path)
+    replay_with(ctx, {"blocks": "blocks", "inline": "inline", "full": "full"}.get(kind, "doc"), path)
 
 
 def selftest(ctx):
